@@ -69,6 +69,23 @@ type RigCfg struct {
 	RTCPStallUs int64       `json:"rtcp_stall_us"`          // the RTCP writer takes this long per call
 	LibStallUs  int64       `json:"lib_stall_us,omitempty"` // the next RTP writer takes this long for packets written by library goroutines (-1: yields)
 	StrictFB    bool        `json:"strict_fb,omitempty"`    // congestion feedback never declares more received packets than it carries deltas for
+	NestAt      int         `json:"nest_at,omitempty"`      // with NestLen > 0: the factories [NestAt, NestAt+NestLen) of the flat list become one nested chain
+	NestLen     int         `json:"nest_len,omitempty"`
+}
+
+// rigNestFactory builds its members into a chain of their own: a chain is an interceptor, so chains nest.
+type rigNestFactory struct{ fs []interceptor.Factory }
+
+func (f rigNestFactory) NewInterceptor(id string) (interceptor.Interceptor, error) {
+	var members []interceptor.Interceptor
+	for _, m := range f.fs {
+		ic, err := m.NewInterceptor(id)
+		if err != nil {
+			return nil, err
+		}
+		members = append(members, ic)
+	}
+	return interceptor.NewChain(members), nil
 }
 
 type RigOp struct {
@@ -364,10 +381,11 @@ type rigMember struct {
 // Build constructs the chain through the real Registry.
 func (rg *Rig) Build(extra func(i int) interceptor.Factory) bool {
 	reg := &interceptor.Registry{}
+	var fs []interceptor.Factory
 	for i, k := range rg.cfg.Kinds {
 		if extra != nil {
 			if f := extra(i); f != nil {
-				reg.Add(f)
+				fs = append(fs, f)
 			}
 		}
 		f, err := rg.buildKind(k, rg.cfg.KSeed[i])
@@ -375,12 +393,21 @@ func (rg *Rig) Build(extra func(i int) interceptor.Factory) bool {
 			rg.BuildErr = err
 			return false
 		}
-		reg.Add(f)
+		fs = append(fs, f)
 	}
 	if extra != nil {
 		if f := extra(len(rg.cfg.Kinds)); f != nil {
-			reg.Add(f)
+			fs = append(fs, f)
 		}
+	}
+	if a := rg.cfg.NestAt; rg.cfg.NestLen > 0 && a < len(fs) {
+		b := min(a+rg.cfg.NestLen, len(fs))
+		nested := rigNestFactory{fs: append([]interceptor.Factory{}, fs[a:b]...)}
+		fs = append(append(append([]interceptor.Factory{}, fs[:a]...), nested), fs[b:]...)
+		rg.e.Fault("nested_chain")
+	}
+	for _, f := range fs {
+		reg.Add(f)
 	}
 	ch, err := reg.Build("rig")
 	if err != nil {
@@ -622,7 +649,12 @@ func (rg *Rig) bindRemote(s int) interceptor.RTPReader {
 		if call.op.Err {
 			call.innerErr = true
 			e.Fault("reader_err")
-			copy(b, call.raw) // the bytes are in the buffer, but the read failed: nobody may account the packet
+			n := copy(b, call.raw) // the bytes are in the buffer, but the read failed: nobody may account the packet
+			if (call.op.HS^(call.op.AtUs/1000))&1 == 0 {
+				// the io.Reader flavour of a failed read: a length together with the error (a truncated datagram)
+				e.Fault("reader_err_with_length")
+				return n, a, errInjected
+			}
 			return 0, a, errInjected
 		}
 		n := copy(b, call.raw)
